@@ -832,7 +832,9 @@ fn execute(scn: &BScn, property: &str) -> RunOutcome {
         let pos_after_s = after.pos.as_secs_f64();
         let band = |x: f64, bound: f64| -> bool {
             // inside the float-rounding band of an off-grid boundary: accept either answer
-            !cfg.grid && (x - bound).abs() <= 8.0 * (f32::EPSILON as f64) * bound.abs().max(1e-9) + 2e-9
+            // (the grid of eighths is exact in f32 only below 2^21 s)
+            let exact = cfg.grid && x.abs() < 2_097_152.0 && bound.abs() < 2_097_152.0;
+            !exact && (x - bound).abs() <= 8.0 * (f32::EPSILON as f64) * bound.abs().max(1e-9) + 2e-9
         };
 
         // coverage: (state_base, state_after, enabled, delta class, retargeted)
@@ -1090,7 +1092,7 @@ fn execute(scn: &BScn, property: &str) -> RunOutcome {
                         ended_at_position = Some(after.pos);
                     }
                     let evaluated_at_s = ended_at_position.unwrap_or(after.pos).as_secs_f64();
-                    let firmly = total.map(|t| cfg.grid || evaluated_at_s > t + 1e-6 * t.abs().max(1e-3)).unwrap_or(false);
+                    let firmly = total.map(|t| (cfg.grid && t < 2_097_152.0) || evaluated_at_s > t + 1e-6 * t.abs().max(1e-3)).unwrap_or(false);
                     let in_band = !firmly && total.is_some();
                     if in_band {
                         out.count("probe.ended_inside_rounding_band_of_end_instant");
